@@ -27,6 +27,13 @@ uint64_t vf_rand (void) {
 	prng ^= prng << 13; prng ^= prng >> 7; prng ^= prng << 17;
 	return (prng);
 }
+/* a second stream, for the plain-access scheduling points only: it depends on the seed and on how many plain writes
+   have happened, not on the scheduler's choices, so a recorded schedule (`sched=`) replays with the same points */
+static uint64_t prng2;
+static uint64_t ps_rand (void) {
+	prng2 ^= prng2 << 13; prng2 ^= prng2 >> 7; prng2 ^= prng2 << 17;
+	return (prng2);
+}
 
 /* ------------------------------------------------------------------ log */
 static char *logbuf; static size_t loglen, logcap;
@@ -590,6 +597,9 @@ static void plain_access (void *addr, int size, int is_write) {
 		return;
 	}
 	if (!o->live && o->kind == K_NW && o->owner == cur) { return; } /* the owner re-using its own stack slot in a later call */
+	if (cfg.plain_sched != 0 && is_write && fibers[cur].in_api && (int) (ps_rand () % 1000) < cfg.plain_sched) {
+		sched_point ();
+	}
 	if (!o->live && cfg.check_plain) {
 		vf_violation ("dead-object", "plain %s of reclaimed object %s+%ld", is_write ? "write" : "read", o->name, (long) ((char *) addr - o->base));
 	}
@@ -658,6 +668,7 @@ void vf_init (const struct vf_config *c) {
 	static char altstack[65536]; stack_t ss; struct sigaction sa; int i;
 	cfg = *c;
 	prng = c->seed * 0x9E3779B97F4A7C15ull + 0x1234567ull; if (prng == 0) { prng = 1; }
+	prng2 = c->seed * 0xD1B54A32D192ED03ull + 0x7654321ull; if (prng2 == 0) { prng2 = 1; }
 	for (i = 0; i != 8; i++) { vf_rand (); }
 	now_ns = 1000000000000ll; /* 1000 s after the epoch */
 	ss.ss_sp = altstack; ss.ss_size = sizeof (altstack); ss.ss_flags = 0; sigaltstack (&ss, NULL);
